@@ -290,17 +290,17 @@ def h_aux_solver_rdm(env, key, solver):
 def shapes(tier, seed):
     from tangelo.algorithms.variational import BuiltInAnsatze
     out = []
-    maps = [("jw", False), ("bk", True), ("scbk", False), ("jkmn", False)]
+    maps = [("jw", False), ("bk", False), ("scbk", False), ("jkmn", False)]
     if tier == "thorough":
-        maps += [("jw", True), ("bk", False), ("scbk", True), ("jkmn", True)]
+        maps += [("jw", True), ("bk", True), ("scbk", True), ("jkmn", True)]      # bk/utd=1 needs ~150 s per shape: thorough only
     for mp, utd in maps:
         for ss in (True, False):
-            if not ss and (mp, utd) not in (("jw", False), ("bk", True)):
+            if not ss and (mp, utd) not in (("jw", False), ("bk", True), ("bk", False)):
                 continue
             out.append(Shape(f"vqe_rdm/sym2/{mp}/utd={int(utd)}/sumspin={int(ss)}", h_vqe_rdm,
                              dict(opts=dict(molecule_key="SYM2", qubit_mapping=mp, up_then_down=utd, ansatz=BuiltInAnsatze.UCCSD), patt="ss", sum_spin=ss),
                              modules=MODS, max_paths=32))
-    for mp, utd in (("scbk", True), ("jw", False)) + ((("scbk", False), ("bk", True), ("bk", False), ("jw", True)) if tier == "thorough" else ()):
+    for mp, utd in (("scbk", True),) + ((("jw", False), ("scbk", False), ("bk", True), ("bk", False), ("jw", True)) if tier == "thorough" else ()):
         tm = "skip" if mp == "scbk" else ("state" if mp == "bk" else "ne")
         out.append(Shape(f"vqe_rdm/sym3-triplet/{mp}/utd={int(utd)}", h_vqe_rdm,
                          dict(opts=dict(molecule_key="SYM3T", qubit_mapping=mp, up_then_down=utd, ansatz=BuiltInAnsatze.UCCSD), patt=None, sum_spin=True,
